@@ -40,6 +40,7 @@ type c14E2EOut struct {
 	ID   int     `json:"id"`
 	Err  string  `json:"err,omitempty"`
 	R1   string  `json:"r1,omitempty"`
+	RB   string  `json:"rb,omitempty"` // Do invoked while the holding action at the end of the chain is busy
 	Cnt  []int32 `json:"cnt,omitempty"` // parallel mode: how many of the reps copies of each event reached Do
 	Reps int     `json:"reps,omitempty"`
 }
@@ -67,6 +68,42 @@ func (p *c14E2EPlugin) Do(e *pipeline.Event) pipeline.ActionResult {
 	return pipeline.ActionPass
 }
 
+// holding action, a minimal join: the event with offset c14E2EHoldN opens a run (ActionHold), every following
+// event is collapsed into it (ActionCollapse), the event with offset c14E2EHoldN+1 closes the run (the held
+// event is propagated, the closing one passes).  While the run is open the processor has a busy action.
+var c14E2EHoldN int64
+
+type c14E2EHolder struct {
+	controller pipeline.ActionPluginController
+	initial    *pipeline.Event
+}
+
+func (p *c14E2EHolder) Start(_ pipeline.AnyConfig, params *pipeline.ActionPluginParams) {
+	p.controller = params.Controller
+}
+func (p *c14E2EHolder) Stop() {}
+func (p *c14E2EHolder) Do(e *pipeline.Event) pipeline.ActionResult {
+	switch {
+	case e.IsTimeoutKind() || e.Offset == c14E2EHoldN+1:
+		if p.initial != nil {
+			ev := p.initial
+			p.initial = nil
+			p.controller.Propagate(ev)
+		}
+		return pipeline.ActionPass
+	case e.Offset == c14E2EHoldN:
+		p.initial = e
+		return pipeline.ActionHold
+	case p.initial != nil:
+		return pipeline.ActionCollapse
+	}
+	return pipeline.ActionPass
+}
+
+func c14E2EHolderFactory() (pipeline.AnyPlugin, pipeline.AnyConfig) {
+	return &c14E2EHolder{}, &c14E2EConfig{}
+}
+
 func c14E2EFactory() (pipeline.AnyPlugin, pipeline.AnyConfig) {
 	return &c14E2EPlugin{}, &c14E2EConfig{}
 }
@@ -74,7 +111,9 @@ func c14E2EFactory() (pipeline.AnyPlugin, pipeline.AnyConfig) {
 // reps == 0: one processor, every event once (sequential end-to-end replay).
 // reps > 0:  parallel pipeline (GOMAXPROCS*2 real processors sharing the checkers), every event sent reps
 //            times, each copy from its own source so that the copies are processed concurrently.
-func c14E2ERunChunk(rules []*c14E2ERule, evs []string, reps int) (outs []*c14E2EOut, err error) {
+// busy:      (with reps == 0) the chain is [rules..., holding action]; a run is opened first, then every event is
+//            sent while the holding action is busy, then the run is closed: only opener and closer reach the output.
+func c14E2ERunChunk(rules []*c14E2ERule, evs []string, reps int, busy bool) (outs []*c14E2EOut, err error) {
 	defer func() {
 		if pv := recover(); pv != nil {
 			err = fmt.Errorf("panic: %v", pv)
@@ -86,6 +125,9 @@ func c14E2ERunChunk(rules []*c14E2ERule, evs []string, reps int) (outs []*c14E2E
 			actions += ","
 		}
 		actions += r.Cfg
+	}
+	if busy {
+		actions += `,{"type":"verif_c14_hold"}`
 	}
 	actions += "]"
 	aj, jerr := simplejson.NewJson([]byte(actions))
@@ -109,8 +151,15 @@ func c14E2ERunChunk(rules []*c14E2ERule, evs []string, reps int) (outs []*c14E2E
 	}
 	c14E2EMu.Unlock()
 	left := atomic.NewInt32(int32(len(evs) * copies))
+	if busy {
+		left.Store(2)
+		c14E2EHoldN = int64(len(evs))
+	}
 	output.SetOutFn(func(*pipeline.Event) { left.Dec() })
 	p.Start()
+	if busy {
+		input.In(0, "verif_c14", test.NewOffset(c14E2EHoldN), []byte(evs[0]))
+	}
 	for c := 0; c < copies; c++ {
 		for i, e := range evs {
 			src := pipeline.SourceID(0)
@@ -119,6 +168,9 @@ func c14E2ERunChunk(rules []*c14E2ERule, evs []string, reps int) (outs []*c14E2E
 			}
 			input.In(src, "verif_c14", test.NewOffset(int64(i)), []byte(e))
 		}
+	}
+	if busy {
+		input.In(0, "verif_c14", test.NewOffset(c14E2EHoldN+1), []byte(evs[0]))
 	}
 	t0 := time.Now()
 	for left.Load() > 0 {
@@ -164,6 +216,7 @@ func TestVerifC14E2E(t *testing.T) {
 	}
 	par := os.Getenv("VERIF_C14_E2E_PAR") != ""
 	fd.DefaultPluginRegistry.RegisterAction(&pipeline.PluginStaticInfo{Type: "verif_c14", Factory: c14E2EFactory})
+	fd.DefaultPluginRegistry.RegisterAction(&pipeline.PluginStaticInfo{Type: "verif_c14_hold", Factory: c14E2EHolderFactory})
 
 	f, err := os.Open(rulesPath)
 	if err != nil {
@@ -189,7 +242,16 @@ func TestVerifC14E2E(t *testing.T) {
 		if par {
 			reps = 2000/len(evs) + 2
 		}
-		outs, err := c14E2ERunChunk(chunk, evs, reps)
+		outs, err := c14E2ERunChunk(chunk, evs, reps, false)
+		if err == nil && !par {
+			var bouts []*c14E2EOut
+			bouts, err = c14E2ERunChunk(chunk, evs, 0, true)
+			if err == nil {
+				for i := range outs {
+					outs[i].RB = bouts[i].R1
+				}
+			}
+		}
 		if err != nil {
 			outs = nil
 			for _, r := range chunk {
